@@ -223,6 +223,20 @@ BPlace(g, place, c, nn) ==
          [] place = "ncase" -> BAddScalar(BSetName(g, "u1", "nC"), "u1", nn, INT, "i1")
          [] place = "cname" -> BAddScalarRef(BSetName(g, "u2", en), "u1", nn, RefE("u2"))
          [] OTHER -> BAddScalarRef(BSetType(g, "u2", tn), "u1", nn, RefE("u2"))
+\* The name is an ordinary, optional member of the element's attribute map.  Removed (del / pop /
+\* clear) the element reads as named "" ("nE"); set again it is a member once more, now after the
+\* attributes added meanwhile ("nR").  Neither the count nor the order of the other attributes may
+\* depend on it.  "r..." acts on the root (u1), "c..." on its child (u2); with a child that has an
+\* attribute of its own the root is not the last element of the file.
+BNamePlace(g, place, nn) ==
+    LET kid(h) == BAddScalarRef(BAddScalar(h, "u2", "Ax", INT, "i2"), "u1", nn, RefE("u2")) IN
+    CASE place = "rdel" -> BAddScalar(BSetName(g, "u1", "nE"), "u1", nn, INT, "i1")
+      [] place = "rpop" -> kid(BSetName(g, "u1", "nE"))
+      [] place = "rclear" -> kid(BSetName(g, "u1", "nE"))
+      [] place = "cdel" -> kid(BSetName(g, "u2", "nE"))
+      [] place = "readd" -> BAddScalar(BSetName(g, "u1", "nR"), "u1", nn, INT, "i1")
+      [] place = "rreadd" -> kid(BSetName(g, "u1", "nR"))
+      [] OTHER -> kid(BSetName(g, "u2", "nR"))                    \* "creadd"
 RECURSIVE AttrSize(_, _)
 AttrSize(attrs, i) == IF i > Len(attrs) THEN 0
                       ELSE 1 + (IF attrs[i].arr THEN Len(attrs[i].v) ELSE 0) + AttrSize(attrs, i + 1)
